@@ -8,7 +8,8 @@ fail=0
 for d in seeded/*/; do
   id=$(basename "$d"); [[ "$id" =~ $PAT ]] || continue
   [ -f "$d/meta.json" ] || continue
-  prop=$(python3 -c "import json;print(json.load(open('$d/meta.json'))['breaks_property'])")
+  # the check that is expected to report the change: the property it was written against, unless meta.json names another
+  prop=$(python3 -c "import json;m=json.load(open('$d/meta.json'));print((m.get('checked_with') or [m['breaks_property']])[0])")
   W=$(mktemp -d /tmp/seedrun.XXXXXX)
   git -C /repo archive HEAD | tar -x -C "$W"
   if ! (cd "$W" && git init -q . >/dev/null 2>&1 && git apply --whitespace=nowarn "$ROOT/$d/patch.diff"); then echo "$id $prop PATCH-DOES-NOT-APPLY"; rm -rf "$W"; fail=1; continue; fi
